@@ -481,6 +481,13 @@ pub fn compare_run(
                 return false;
             }
             let got = classify_stderr(stderr);
+            if got != want && got.starts_with("game-error ") && want.starts_with("game-error ") {
+                // the documented category is the same; a tree that violates several rules of the
+                // library contract may be reported under any of them (which one is found first is
+                // not part of the contract; that the named rule is violated is C11's oracle)
+                ctx.stat("cli_model_game_error_other_rule");
+                return true;
+            }
             if got != want {
                 ctx.fail_corr(case, format!("the model predicts the diagnostic category {:?}, the program's diagnostic is {:?}; {}", want, got, shown));
                 return false;
